@@ -510,13 +510,15 @@ func TestC08Conc(t *testing.T) { checkProp(t, "C08", "concurrent", genC08Conc, e
 // get its own caller's deadline when many calls with few distinct timeout values arrive back to back, round after round.
 
 type C08Flood struct {
+	// Stats: do-nothing stats handlers on server and client (kit.Topo.Stats)
+	Stats   bool      `json:"stats,omitempty"`
 	Rounds  [][]int64 `json:"rounds"` // per round, per call: timeout in ms (0 = none)
 	Clients int       `json:"clients"`
 	Ser     bool      `json:"ser"`
 }
 
 func genC08Flood(t *rapid.T) C08Flood {
-	c := C08Flood{Clients: rapid.IntRange(1, 3).Draw(t, "clients"), Ser: rapid.Bool().Draw(t, "ser")}
+	c := C08Flood{Clients: rapid.IntRange(1, 3).Draw(t, "clients"), Ser: rapid.Bool().Draw(t, "ser"), Stats: rapid.IntRange(0, 3).Draw(t, "stats") == 0}
 	vals := []int64{0, 5000, 5001, 60000, 3600000, 86400000}
 	nr := rapid.IntRange(2, 5).Draw(t, "rounds")
 	for r := 0; r < nr; r++ {
@@ -559,7 +561,7 @@ func execC08Flood(t *testing.T, c C08Flood) (v Verdict) {
 			mu.Unlock()
 			return req, nil
 		})
-		w := kit.NewWorld(kit.Topo{Kind: "direct", Serialize: c.Ser, Clients: c.Clients}, svc, nil, nil)
+		w := kit.NewWorld(kit.Topo{Kind: "direct", Serialize: c.Ser, Clients: c.Clients, Stats: c.Stats}, svc, nil, nil)
 		for _, round := range c.Rounds {
 			start := make(chan struct{})
 			var wg sync.WaitGroup
